@@ -301,12 +301,16 @@ inductive SpecResolve (env : Env) (s : Str) : Res → Prop where
   | unset (n) : IsTemplate s n none → env n = none → SpecResolve env s .error
   | other : (¬ ∃ n d, IsTemplate s n d) → SpecResolve env s .untouched
 
+/-- `(name, has default)` if the string is a template -/
+def tmplOf (s : Str) : List (Str × Bool) :=
+  match matchTemplate s with
+  | some (n, d) => [(n, d.isSome)]
+  | none => []
+
 mutual
 /-- `(name, has default)` of every template on the selected branches -/
 def tmplsOnSelected (sel : Nat) : Doc → List (Str × Bool)
-  | .str s => match matchTemplate s with
-    | some (n, d) => [(n, d.isSome)]
-    | none => []
+  | .str s => tmplOf s
   | .num _ => []
   | .list xs => tmplsList sel xs
   | .map kvs => tmplsKvs sel kvs
@@ -346,6 +350,56 @@ def switchFreeList : List Doc → Bool
 def switchFreeKvs : List (String × Doc) → Bool
   | [] => true
   | (_, x) :: xs => switchFree x && switchFreeKvs xs
+end
+
+/-! templates of ALL string values of a tree (what `parseTemplatedElements` visits) -/
+mutual
+def allTmpls : Doc → List (Str × Bool)
+  | .str s => tmplOf s
+  | .num _ => []
+  | .list xs => allTmplsList xs
+  | .map kvs => allTmplsKvs kvs
+  | .switch bs => allTmplsBs bs
+def allTmplsList : List Doc → List (Str × Bool)
+  | [] => []
+  | x :: xs => allTmpls x ++ allTmplsList xs
+def allTmplsKvs : List (String × Doc) → List (Str × Bool)
+  | [] => []
+  | (_, x) :: xs => allTmpls x ++ allTmplsKvs xs
+def allTmplsBs : List (Option Nat × Doc) → List (Str × Bool)
+  | [] => []
+  | (_, x) :: xs => allTmpls x ++ allTmplsBs xs
+end
+
+/-- outcome of the substitution over a whole tree: it fails exactly when some template without a
+default names an unset variable -/
+def Outcome (env : Env) (r : Except LoadErr α) (ts : List (Str × Bool)) : Prop :=
+  ((∃ y, r = .ok y) ∧ ∀ n, (n, false) ∈ ts → env n ≠ none) ∨
+  (r = .error .unsetVar ∧ ∃ n, (n, false) ∈ ts ∧ env n = none)
+
+/-- what a string value becomes when the substitution succeeds -/
+def outOf (rs : Str → Res) (s : Str) : Str :=
+  match rs s with
+  | .replaced v => v
+  | _ => s
+
+mutual
+/-- apply `f` to every string value, at any depth: map values, list items, (raw) switch branches -/
+def liftStrs (f : Str → Str) : Doc → Doc
+  | .str s => .str (f s)
+  | .num n => .num n
+  | .list xs => .list (liftList f xs)
+  | .map kvs => .map (liftKvs f kvs)
+  | .switch bs => .switch (liftBs f bs)
+def liftList (f : Str → Str) : List Doc → List Doc
+  | [] => []
+  | x :: xs => liftStrs f x :: liftList f xs
+def liftKvs (f : Str → Str) : List (String × Doc) → List (String × Doc)
+  | [] => []
+  | (k, x) :: xs => (k, liftStrs f x) :: liftKvs f xs
+def liftBs (f : Str → Str) : List (Option Nat × Doc) → List (Option Nat × Doc)
+  | [] => []
+  | (k, x) :: xs => (k, liftStrs f x) :: liftBs f xs
 end
 
 end EnvTmpl
